@@ -768,6 +768,7 @@ func Run(c *hx.Ctx) {
 	c.Rng = hx.NewRng(mixSeed(c.Seed))
 	if len(c.Args) > 0 && c.Args[0] == "px-only" { // development aid: only the request-path stream
 		runPxStream(c)
+		runPsStream(c)
 		return
 	}
 	if len(c.Args) > 0 && c.Args[0] == "keys-only" { // development aid: only the adversarial-key stream
@@ -827,6 +828,7 @@ func Run(c *hx.Ctx) {
 	runWideStream(c)
 	// the request path: sequences of requests on one route through the real proxy core (c15px.go)
 	runPxStream(c)
+	runPsStream(c)
 	if c.Thorough() {
 		exhaustiveSmall(c)
 	}
